@@ -323,3 +323,10 @@ def c_change_small(ctx, it, cfg):
     newV = o.ThirdMoment()
     ctx.prove('third-moment-preserved-when-the-new-grid-covers-the-populated-range', eq(newV, oldV))
     ctx.prove('canary/volume-always-lost', eq(newV, 0), expect='refuted')
+
+
+# ---------------------------------------------------------------------------------------------------
+# BOUNDED stand-in (labelled; never counted as proved): "extending the grid leaves existing classes and populations untouched" and the representation
+# invariant on objects reached from the real constructor by every sequence of <= 2 (quick) / <= 3 (thorough) public grid operations
+c_add_history = REG.contract('bounded-history/addSizeClasses', [T + 'addSizeClasses', T + '__init__', T + 'reset', T + 'createBackup', T + 'revert', T + 'changeSizeClasses', T + 'UpdatePBMEuler'],
+                             configs=history_configs(2, 3), bounded='operation sequences of length <= 2 (quick) / <= 3 (thorough) from the real constructor; arguments symbolic')(with_history(c_add))
